@@ -772,7 +772,7 @@ UNITS["v_reported_paths"] = dict(
 
 # ------------------------------------------------------------------------------------------------
 UNITS["v_assign_types"] = dict(
-    prop=["C08", "C12"], tier="q", prelude=["assigntypes.rs"],
+    prop=["C08", "C12", "C01"], tier="q", prelude=["assigntypes.rs"],
     fns=[dict(
         id="variant_type_info", file=EXPR + "assignment.rs", impl="impl<U> Expression for Variant<Target, U>", name="type_info",
         orig_sig="fn type_info(&self, state: &TypeState) -> TypeInfo",
@@ -786,6 +786,10 @@ UNITS["v_assign_types"] = dict(
              "self is Infallible ==> members(self->Infallible_expr.spec_type(*state)).subset_of(members(r.state.writes@[r.state.writes@.len() - 2].type_def))"),
             ("C08.assign.err_target_recorded", "err is recorded last, without a constant",
              "self is Infallible ==> r.state.writes@.last().target == self->Infallible_err.id@ && r.state.writes@.last().constant is None"),
+            ("C01.assign.records_rhs_type", "`target = e` records for the target exactly the kind the compiler derived for e, and the assignment expression itself has that kind",
+             "self is Single ==> r.state.writes@.len() >= 1 && members(r.state.writes@.last().type_def) == members(self->Single_expr.spec_type(*state)) && members(r.result) == members(self->Single_expr.spec_type(*state))"),
+            ("C01.assign.infallible_result_kind", "`ok, err = e` evaluates to e's value or the error message: its kind admits every value of e (and bytes)",
+             "self is Infallible ==> members(self->Infallible_expr.spec_type(*state)).subset_of(members(r.result))"),
             ("C12.assign.records_rhs_constant", "`target = e` records exactly the constant the compiler derives for e (in the state after e's own effects) and e's type",
              "self is Single ==> r.state.writes@.len() >= 1 && r.state.writes@.last().target == self->Single_target.id@ && members(r.state.writes@.last().type_def) == members(self->Single_expr.spec_type(*state))"),
         ],
